@@ -254,6 +254,7 @@ def run_c13(ctx):
                 nm.clear_locals()
                 model.maps["local"] = {}
                 ctx.count("probe:clear_locals")
+                ctx.count("fault:clear_locals")
                 ctx.decoded["ops"].append(["clear_locals"])
                 continue
             if op == "repeat" and looked:
@@ -261,6 +262,7 @@ def run_c13(ctx):
                 if ns == "local" and key not in model.maps["local"]:
                     continue
                 ctx.count("probe:lookup_repeated")
+                ctx.count("fault:lookup_repeated")
             elif op == "function":
                 ns, key = "func", FUNC_NAMES[tape.draw(len(FUNC_NAMES), "fname")]
             elif op == "unique":
@@ -319,6 +321,7 @@ def run_c13(ctx):
                 ident = nm[key]
                 how = "getitem"
             ctx.decoded["ops"].append([how, key, ident])
+            ctx.count("fault:lookup_in_seeded_order")
             ctx.log.add("lookup", how, key, ident)
             m = model.maps[ns]
             # N5 storage class
